@@ -128,6 +128,8 @@ def check(model, R, tier):
                        'num_params counts each parameter of that list once, in exactly one of trainable / non-trainable [evaluated on a module tree with shared objects]', floor=5)
     check_world(model, R, 'C12', rules=('ONCE',))
     check_mode(model, R, 'C12')
+    from sa.props.c07 import check_setter_value
+    check_setter_value(model, R, 'C12')        # freeze / unfreeze go through this setter
     check_super_roles(model, R, 'C12')
     # ---------------------------------------------------------------- SUBCLASS
     subs = model.subclasses(MOD)
